@@ -35,7 +35,7 @@ def fold_cases(draw):
         lo = draw(st.sampled_from([0.0, 1.0, -1.0])) * 10 ** draw(st.floats(-3, 9)) if draw(st.booleans()) else draw(st.floats(-10, 10))
         w = 10 ** draw(st.floats(-9, 9))
         w = max(w, abs(lo) * 1e-12)
-        kind = draw(st.sampled_from(["inside", "wall", "near", "far", "huge"]))
+        kind = draw(st.sampled_from(["inside", "wall", "near", "far", "huge", "abs"]))
         if kind == "inside":
             u = draw(st.floats(0, 1))
         elif kind == "wall":
@@ -44,11 +44,22 @@ def fold_cases(draw):
             u = draw(st.floats(-3, 4))
         elif kind == "far":
             u = draw(st.floats(-1e3, 1e3))
+        elif kind == "abs":
+            # a point given by its own value, not as lower + fraction * width: its digits go below the rounding of far-away limits
+            u = draw(st.floats(-1, 1)) * 10 ** draw(st.floats(-6, 9))
         else:
             u = draw(st.floats(-1e6, 1e6))
         # one-sided limits: only the lower, only the upper, or no finite limit at all on this coordinate
         coords.append({"lo": lo, "w": w, "u": u, "kind": kind, "open": draw(st.sampled_from([None, None, None, None, "upper", "lower", "both"]))})
-    return {"seed": 0, "coords": coords, "which": draw(st.sampled_from(["bounds", "bounds", "gibbs-boundary", "gibbs-nonneg"]))}
+    case = {"seed": 0, "coords": coords, "which": draw(st.sampled_from(["bounds", "bounds", "gibbs-boundary", "gibbs-nonneg"]))}
+    # whole-number limits may be held in an integer / narrow array (or numpy scalars, for Gibbs parameters): the same limits
+    if draw(st.integers(0, 5)) == 0:
+        scale = draw(st.sampled_from([100, 30000]))
+        for c in coords:
+            c["lo"] = -float(draw(st.integers(0, scale)))
+            c["w"] = float(draw(st.integers(1, scale))) - c["lo"]
+        case["lim_form"] = draw(st.sampled_from(["int8", "int16", "int32", "int64", "float16", "float32"] if scale == 100 else ["int16", "int32", "int64", "float32"]))
+    return case
 
 
 def exact_fold(theta, lo, hi):
@@ -81,13 +92,19 @@ def body_folds(case, ctx):
         raise Inconclusive("width lost to rounding")
     theta = lo + np.array([c["u"] for c in case["coords"]]) * (hi - lo)
     for c, l, h, i in zip(case["coords"], lo, hi, range(len(lo))):
+        if c["kind"] == "abs" and abs(c["u"] - l) <= 1e6 * (h - l):      # (the stated domain: at most 1e6 widths outside)
+            theta[i] = c["u"]
         if c["kind"] == "wall":
             theta[i] = l if int(c["u"]) % 2 == 0 and c["u"] in (0.0,) else (h if c["u"] == 1.0 else theta[i])
     which = case["which"]
-    opens = [c.get("open") if which == "bounds" else None for c in case["coords"]]
+    form = case.get("lim_form")
+    # one-sided limits: Bounds documents them; a Gibbs parameter gets an upper limit only through (-inf, upper)
+    opens = [c.get("open") if which in ("bounds", "gibbs-boundary") and not (form and "int" in form) else None for c in case["coords"]]
     if which == "bounds":
         lo_b = np.array([-np.inf if o in ("lower", "both") else v for o, v in zip(opens, lo)])
         hi_b = np.array([np.inf if o in ("upper", "both") else v for o, v in zip(opens, hi)])
+        if form:
+            lo_b, hi_b = lo_b.astype(form), hi_b.astype(form)
         b = Bounds(lower=lo_b, upper=hi_b)
         r1 = np.asarray(b.reflect(theta.copy()), dtype=float)
         r2, sign = b.reflect_momenta(theta.copy())
@@ -100,7 +117,15 @@ def body_folds(case, ctx):
         for i in range(lo.size):
             p = Parameter(value=float(np.clip(theta[i], lo[i], hi[i])), sigma=1.0)
             if which == "gibbs-boundary":
-                p.set_boundaries(float(lo[i]), float(hi[i]))
+                l_arg = -np.inf if opens[i] in ("lower", "both") else float(lo[i])
+                h_arg = np.inf if opens[i] in ("upper", "both") else float(hi[i])
+                if form:
+                    l_arg, h_arg = np.dtype(form).type(l_arg), np.dtype(form).type(h_arg)
+                with warnings.catch_warnings(record=True) as caught:
+                    warnings.simplefilter("always")
+                    p.set_boundaries(l_arg, h_arg)
+                if not p.bounded:
+                    raise Violation("fold:limits-refused", f"set_boundaries({l_arg!r}, {h_arg!r}) was not taken up: {[str(w.message) for w in caught]}")
                 p.rng = StubGen(float(theta[i]))
                 results[i] = p.proposal()
             else:
@@ -124,19 +149,23 @@ def body_folds(case, ctx):
                 want_r, flipped = (t, False) if t >= l else (float(2 * Fraction(l) - Fraction(t)), True)
             else:
                 want_r, flipped = (t, False) if t <= h else (float(2 * Fraction(h) - Fraction(t)), True)
-            if not np.isfinite(r) or abs(r - want_r) > 8 * EPS * (abs(t) + abs(l) + abs(h)):
+            if not np.isfinite(r) or abs(r - want_r) > 8 * EPS * (abs(t) + abs(l) + abs(h)) or (not flipped and r != t):
                 raise Violation("fold:one-sided", f"theta={t!r} with limits ({'-inf' if opens[i] in ('lower', 'both') else l!r}, {'inf' if opens[i] in ('upper', 'both') else h!r}) is mapped to {r!r}, expected {want_r!r}")
             if signs is not None and float(signs[i]) != (-1.0 if flipped else 1.0):
                 raise Violation("fold:momentum-sign", f"theta={t!r}, one-sided limit: momentum factor {signs[i]!r}, mirrored: {flipped}")
-            ctx.event("one-sided-limit")
+            ctx.event("one-sided-limit:" + which)
             continue
         exact, folds, quotient = exact_fold(t, l, h)
         max_folds = max(max_folds, abs(folds))
         tol_in = 4 * EPS * max(abs(l), abs(h))
         if not (l - tol_in <= r <= h + tol_in) or not np.isfinite(r):
             raise Violation(f"fold:outside:{which}", f"theta={t!r} folded into [{l!r}, {h!r}] gives {r!r}")
-        if l <= t <= h and abs(r - t) > 4 * EPS * (abs(t) + abs(l)):
+        # "the identity on the allowed region": a point already inside comes back as it is, not re-assembled from lower + remainder
+        # (which loses the digits of theta below the rounding of a far-away lower limit)
+        if l <= t <= h and r != t:
             raise Violation(f"fold:not-identity:{which}", f"theta={t!r} already inside [{l!r}, {h!r}] is mapped to {r!r}")
+        if l < t < h and signs is not None and float(signs[i]) != 1.0:
+            raise Violation("fold:momentum-sign", f"theta={t!r} already inside [{l!r}, {h!r}]: momentum factor {signs[i]!r}")
         tol = 8 * EPS * (abs(t) + abs(l) + abs(h))
         err = abs(float(Fraction(r) - exact))
         ctx.ratio("fold-accuracy", err, tol)
@@ -150,6 +179,8 @@ def body_folds(case, ctx):
                     raise Violation("fold:momentum-sign", f"theta={t!r}, [{l!r}, {h!r}]: folded {folds} times, momentum factor {signs[i]!r}")
     ctx.nontrivial(max_folds >= 2)
     ctx.event("which=" + which)
+    if form:
+        ctx.event("limits held as " + form)
     ctx.event("folds>=2" if max_folds >= 2 else f"folds={max_folds}")
 
 
@@ -165,6 +196,8 @@ def gibbs_cases(draw):
         op = {"op": k, "i": draw(st.integers(0, cfg["d"] - 1))}
         if k == "set_b":
             op["below"], op["above"] = 10 ** draw(st.floats(-3, 1)), 10 ** draw(st.floats(-3, 1))
+            # a limit on one side only is given with an infinite other side
+            op["side"] = draw(st.sampled_from([None, None, None, "upper-only", "lower-only"]))
         if k in ("step", "advance"):
             op["m"] = draw(st.integers(1, 4)) if k == "step" else draw(st.sampled_from([0, 5, 30, 101]))
         ops.append(op)
@@ -213,8 +246,14 @@ def body_gibbs(case, ctx):
             with np.errstate(all="ignore"):
                 if op["op"] == "set_b":
                     lo, hi = cur - op["below"] * s[i], cur + op["above"] * s[i]
+                    if op.get("side") == "upper-only":
+                        lo = -np.inf
+                    elif op.get("side") == "lower-only":
+                        hi = np.inf
                     if nonneg[i] and hi <= 0:
                         continue
+                    if op.get("side"):
+                        ctx.event("one-sided set_boundaries")
                     ch.set_boundaries(i, (lo, hi))
                     bounded[i] = (lo, hi)
                     changes[i] += 1
@@ -284,6 +323,14 @@ def box_cases(draw):
     cfg["wall_i"] = draw(st.integers(0, cfg["d"] - 1))
     cfg["bounds"]["half"] = [10 ** draw(st.floats(-2, 0.7)) for _ in range(cfg["d"])]
     cfg["bounds"]["centre_mag"] = draw(st.sampled_from([0.0, 0.0, 1e3, -1e6]))
+    # whole-number limits handed over in an integer / single-precision array, and boxes that are very wide
+    cfg["bounds"]["dtype"] = draw(st.sampled_from([None, None, None, None, "int8", "int16", "int32", "float32"]))
+    if draw(st.integers(0, 5)) == 0:
+        cfg["bounds"]["half"] = [10 ** draw(st.floats(3, 12)) for _ in range(cfg["d"])]
+    if cfg["bounds"]["dtype"] in ("int8", "int16") and draw(st.booleans()):
+        # limits that use most of the range of their type (their width does not fit in it)
+        top = 127 if cfg["bounds"]["dtype"] == "int8" else 32767
+        cfg["bounds"]["abs_box"] = [[-draw(st.integers(top // 3, top + 1)) for _ in range(cfg["d"])], [draw(st.integers(top // 3, top)) for _ in range(cfg["d"])]]
     if cfg["cls"] == "hmc":
         cfg["hmc"]["eps_log"] = draw(st.floats(-2, 1.5))
     if cfg["cls"] == "ensemble":
@@ -298,7 +345,7 @@ def body_box(case, ctx):
     cls = cfg["cls"]
     d = cfg["d"]
     # move the whole problem far from the origin if asked (bounds far from zero)
-    shift = cfg["bounds"].get("centre_mag", 0.0)
+    shift = cfg["bounds"].get("centre_mag", 0.0) if not cfg["bounds"].get("abs_box") else 0.0
     tspec = dict(cfg["target"])
     if shift:
         if tspec["kind"] == "gauss":
@@ -335,6 +382,8 @@ def body_box(case, ctx):
                 i = int(np.argmax(bad))
                 side = "above" if pt[i] > hi[i] else "below"
                 raise Violation(f"box-violated:{cls}:{what}", f"coordinate {i} = {pt[i]!r} is {side} the box [{lo[i]!r}, {hi[i]!r}] ({what}; start on wall: {cfg['on_wall']}, gradient: {cfg.get('hmc', {}).get('grad')})")
+    if info.get("bounds_dtype") not in (None, "<class 'float'>"):
+        ctx.event("limits held as " + info["bounds_dtype"])
     check([t for t, _ in tgt.trace], "posterior evaluation")
     if grad is not None:
         check(grad.points, "gradient evaluation")
